@@ -14,7 +14,7 @@ from .c01 import shape_sig
 
 PROP = 'C06'
 LEVEL = 'fault_enumeration'
-N = {'quick': 1800, 'thorough': 40000}
+N = {'quick': 1400, 'thorough': 40000}
 BATCH = 8
 RULE = ('seeded small worlds (1-4 segments, <=3 channels, contiguous / interleaved / strings / no-metadata '
         'segments, last lead-in explicit or carrying the 0xFFFFFFFFFFFFFFFF marker); the producer crashes at EVERY '
@@ -23,7 +23,7 @@ RULE = ('seeded small worlds (1-4 segments, <=3 channels, contiguous / interleav
         'oracle. evaluations = worlds, sub_evaluations = crash points. distinct = segment shape sequence; '
         'non-trivial = some cut fell strictly inside raw data that holds values')
 EXPECTED_PROBES = ['cut:lead-in', 'cut:metadata', 'cut:chunk-boundary', 'cut:mid-row-interleaved', 'cut:mid-value',
-                   'cut:string-offsets', 'cut:string-bytes', 'marker:contiguous', 'marker:interleaved']
+                   'cut:string-offsets', 'cut:string-bytes', 'marker:contiguous', 'marker:interleaved', 'daqmx-world']
 ASSUMPTIONS = ['crash model = prefix truncation at a byte offset (what the statement names); holes and reordered '
                'writes are not modelled']
 
@@ -46,7 +46,10 @@ def generate(rng, tier):
     o = opts(tier)
     if rng.random() < 0.6:
         o.props = False
-    spec, w, _ = gen.gen_world(rng, o)
+    from .c11 import maybe_daqmx_world
+    spec = maybe_daqmx_world(rng, 0.12)
+    if spec is None:
+        spec, w, _ = gen.gen_world(rng, o)
     return {'spec': spec, 'raw_ts': rng.random() < 0.5, 'cuts': None, 'win_seed': rng.getrandbits(32)}
 
 
@@ -61,6 +64,8 @@ def classify_cut(w, c):
                 return 'chunk-boundary'
             if s.layout == 'interleaved':
                 return 'mid-row-interleaved'
+            if s.layout == 'daqmx':
+                return 'daqmx-buffer'
             # contiguous: which object does the cut fall into
             off = (c - s.data_pos) % s.chunk_size if s.chunk_size else 0
             for (p, h, idx) in s.active:
@@ -111,7 +116,7 @@ def check_cut(w, c, raw_ts, st, res, win_rng, real=False):
                 out.append(V('C06.invented-object', 'cut %d: %s' % (c, path)))
                 continue
             try:
-                data = chn[:]
+                data = chn[:] if ch.type != 'daqmx' else chn.raw_scaler_data
             except Exception as exc:
                 out.append(V('C06.eager-raises', 'cut %d: %s[:] %s: %s' % (c, path, type(exc).__name__, exc),
                              exc=type(exc).__name__))
@@ -128,6 +133,11 @@ def check_cut(w, c, raw_ts, st, res, win_rng, real=False):
                              'before the cut' % (c, path, n, guaranteed[path])))
             if len(chn) != n:
                 out.append(V('C06.len', 'cut %d: %s len()=%d but %d values returned' % (c, path, len(chn), n)))
+            if ch.type == 'daqmx' and n > 0:
+                exp = _lazy.take_norm(_lazy.model_full(ch, raw_ts), range(n))
+                if gn != exp:
+                    out.append(V('C06.not-a-prefix', 'cut %d: %s DAQmx scaler data is not a prefix of the complete file' % (c, path),
+                                 type='daqmx'))
             if ch.type not in (None, 'daqmx') and n > 0:
                 exp = ops.model_norm(ch, range(n), raw_ts)
                 if not ops.agree(gn, exp):
@@ -153,7 +163,8 @@ def check_cut(w, c, raw_ts, st, res, win_rng, real=False):
     try:
         for path, gn in eager_norm.items():
             chn = ops.chan(lazy, w, path)
-            got, exc, eo = ops.try_op(lambda: ops.norm(chn[:]))
+            isdaq = w.chans[path].type == 'daqmx'
+            got, exc, eo = ops.try_op(lambda: ops.norm(chn[:] if not isdaq else chn.read_data(scaled=False)))
             if exc:
                 out.append(V('C06.lazy-raises', 'cut %d: %s[:] %s: %s' % (c, path, exc, eo), exc=exc))
                 continue
@@ -187,8 +198,11 @@ def execute(case):
     spec = case['spec']
     w = build(spec)
     raw_ts = case['raw_ts']
-    res.sig = [shape_sig(spec)]
+    from .c04 import _sig
+    res.sig = [_sig(spec)]
     last = w.segs[-1]
+    if last.layout == 'daqmx':
+        res.probe('daqmx-world')
     if last.unknown:
         res.probe('marker:' + last.layout)
     cuts = case['cuts'] if case['cuts'] is not None else list(range(4, len(w.data) + 1))
@@ -242,5 +256,6 @@ def shrink_candidates(case):
 
 def sample(case):
     w = build(case['spec'])
-    return {'segments': shape_sig(case['spec']), 'file_bytes': len(w.data), 'cuts': 'every offset 4..%d' % len(w.data),
+    from .c04 import _sig
+    return {'segments': _sig(case['spec']), 'file_bytes': len(w.data), 'cuts': 'every offset 4..%d' % len(w.data),
             'raw_timestamps': case['raw_ts']}
